@@ -56,7 +56,7 @@ Proof.
   intros HD. unfold seg_values.
   rewrite (map_ext _ (fun d => (v / D) * d)).
   - rewrite Rsum_scale. field. exact HD.
-  - intros d. rewrite frac_nonzero by exact HD. cbn [mul RNum]. field. exact HD.
+  - intros d. unfold piece_value. rewrite frac_nonzero by exact HD. cbn [mul RNum]. field. exact HD.
 Qed.
 
 Lemma seg_values_exact fix3 (v D : R) (ds : list R) :
@@ -82,7 +82,7 @@ Lemma seg_values_zero_coded (v : R) (ds : list R) : Rsum (@seg_values RNum false
 Proof.
   unfold seg_values. rewrite (map_ext _ (fun _ => 0)).
   - rewrite Rsum_const. lra.
-  - intros d. rewrite frac_zero_coded. cbn [mul RNum]. lra.
+  - intros d. unfold piece_value. rewrite frac_zero_coded. cbn [mul RNum]. lra.
 Qed.
 
 (* zero-length segment, repaired: the value is kept (shared equally among the pieces) *)
@@ -94,7 +94,7 @@ Proof.
     assert (INR (length ds) <> 0).
     { apply not_0_INR. destruct ds; [contradiction|discriminate]. }
     field. assumption.
-  - intros d. rewrite frac_zero_fixed. reflexivity.
+  - intros d. unfold piece_value. rewrite frac_zero_fixed. reflexivity.
 Qed.
 
 (* ---------- a trajectory part ---------- *)
@@ -403,7 +403,7 @@ Lemma zero_length_dropped_as_coded clamp fixdl fixz :
   @grid_integrated RNum f3_dist clamp false fixdl fixz [0; 1] [0; 1] [(/2, /2); (/2, /2)] [[5]] = [[0]].
 Proof.
   rewrite grid_integrated_no_crossing by exact f3_no_crossing. cbn [map]. rewrite f3_witness_dists.
-  unfold part_values. cbn [map2 fst snd concat app]. unfold seg_values. cbn [map length].
+  unfold part_values. cbn [map2 fst snd concat app]. unfold seg_values, piece_value. cbn [map length].
   rewrite frac_zero_coded. cbn [mul RNum]. replace (5 * 0) with 0 by lra. reflexivity.
 Qed.
 
@@ -411,7 +411,7 @@ Lemma zero_length_kept_when_fixed clamp fixdl fixz :
   @grid_integrated RNum f3_dist clamp true fixdl fixz [0; 1] [0; 1] [(/2, /2); (/2, /2)] [[5]] = [[5]].
 Proof.
   rewrite grid_integrated_no_crossing by exact f3_no_crossing. cbn [map]. rewrite f3_witness_dists.
-  unfold part_values. cbn [map2 fst snd concat app]. unfold seg_values. cbn [map length].
+  unfold part_values. cbn [map2 fst snd concat app]. unfold seg_values, piece_value. cbn [map length].
   rewrite frac_zero_fixed. cbn [mul RNum Z.of_nat Pos.of_succ_nat].
   replace (5 * (1 / 1)) with 5 by field. reflexivity.
 Qed.
